@@ -64,6 +64,16 @@ func c06(c *Ctx) {
 				}
 			}
 		}
+		// the same nonterminal as two inputs (a user %input that is also a lookahead target, or
+		// simply listed twice): their entry states are equivalent and must not be merged away
+		if c.Rng.Intn(6) == 0 {
+			in := g.Inputs[c.Rng.Intn(len(g.Inputs))]
+			if c.Rng.Intn(2) == 0 {
+				in.Eoi = !in.Eoi
+			}
+			g.Inputs = append(g.Inputs, in)
+			c.Count("with a nonterminal used as two inputs")
+		}
 		// state markers inside rules (erased from the tables' RuleLen, but present in Rule.RHS)
 		type mark struct{ rule, pos, marker int }
 		var marks []mark
